@@ -15,6 +15,7 @@ CONSTANTS
  DevDangEnd = TRUE
  DevNoAtomResname = FALSE
  DevOrderedPairs = FALSE
+ DevGateOnce = FALSE
  DevDegree = FALSE
 INVARIANT Export
 CHECK_DEADLOCK FALSE
